@@ -102,6 +102,7 @@ class Wrap:
 
 # ------------------------------------------------------------------------------ models
 N_OBS = 6
+DISC_OUT, DISC_P = [0.0, 1.0, 2.0], [0.2, 0.5, 0.3]
 
 
 def data(seed):
@@ -121,17 +122,24 @@ def liesel_model(seed, variant=None):
     sigma = lsl.param(np.float32(1.0), lsl.Dist(tfd.LogNormal, loc=np.float32(0.0), scale=np.float32(1.0)), name="sigma")
     sigma.transform(tfb.Exp())
     shift = lsl.param(np.float32(0.0), lsl.Dist(tfd.Normal, loc=np.float32(0.0), scale=np.float32(2.0)), name="shift")
-    mu = lsl.Var(lsl.Calc(lambda X, b, s: X @ b + s, lsl.obs(X, name="X"), beta, shift), name="mu")
+    if variant.get("disc"):
+        # a categorical parameter (finite-discrete prior) that shifts the mean; sampled by the library's finite-discrete Gibbs kernel
+        z = lsl.param(np.float32(1.0), lsl.Dist(tfd.FiniteDiscrete, outcomes=np.array(DISC_OUT, dtype=np.float32), probs=np.array(DISC_P, dtype=np.float32)), name="z")
+        mu = lsl.Var(lsl.Calc(lambda X, b, s, zz: X @ b + s + 0.3 * jnp.asarray(zz, dtype=jnp.float32), lsl.obs(X, name="X"), beta, shift, z), name="mu")
+    else:
+        mu = lsl.Var(lsl.Calc(lambda X, b, s: X @ b + s, lsl.obs(X, name="X"), beta, shift), name="mu")
     pred = lsl.Var(lsl.Calc(lambda b, s: jnp.dot(xnew, b) + s, beta, shift), name="pred")          # feeds no distribution
     yv = lsl.obs(y, lsl.Dist(tfd.Normal, loc=mu, scale=sigma), name="y")
     extra = []
     if variant.get("weakdist"):
         extra.append(lsl.Var(lsl.Calc(lambda s: jnp.asarray(s) ** 2, sigma), lsl.Dist(tfd.HalfNormal, scale=np.float32(5.0)), name="sigma2"))
+    if variant.get("pit"):
+        extra.append(lsl.PIT(shift, name="shift_pit"))        # legacy PIT variable: a caching node that is neither Calc nor Dist
     model = lsl.GraphBuilder().add(yv, pred, *extra).build_model()
     if variant.get("auto_off"):
         model.auto_update = False
-    params = ["beta", "sigma_transformed", "shift"]
-    derived = ["mu", "sigma", "pred", "_model_log_prob", "_model_log_lik", "_model_log_prior"]
+    params = ["beta", "sigma_transformed", "shift"] + (["z"] if variant.get("disc") else [])
+    derived = ["mu", "sigma", "pred", "_model_log_prob", "_model_log_lik", "_model_log_prior"] + (["shift_pit"] if variant.get("pit") else [])
     return model, params, derived
 
 
@@ -149,13 +157,20 @@ def recompute(seed, p, variant=None):
     """float64 derived quantities from parameter values p = {beta, sigma_transformed, shift}"""
     X, y, xnew = (a.astype(np.float64) for a in data(seed))
     b, t, s = np.asarray(p["beta"], np.float64), float(p["sigma_transformed"]), float(p["shift"])
-    mu = X @ b + s
+    variant = variant or {}
+    zc = float(p["z"]) if variant.get("disc") else 0.0
+    mu = X @ b + s + 0.3 * zc
     sig = math.exp(t)
     ll = float(np.sum(sps.norm.logpdf(y, mu, sig)))
     lpr = float(np.sum(sps.norm.logpdf(b, 0, 10.0)) + sps.norm.logpdf(t, 0, 1.0) + sps.norm.logpdf(s, 0, 2.0))
     # a weak variable with a distribution is neither parameter nor observed: its log-density enters the model log-prob only
-    extra = float(sps.halfnorm.logpdf(sig ** 2, scale=5.0)) if (variant or {}).get("weakdist") else 0.0
-    return {"mu": mu, "sigma": sig, "pred": float(xnew @ b + s), "_model_log_lik": ll, "_model_log_prior": lpr, "_model_log_prob": ll + lpr + extra}
+    extra = float(sps.halfnorm.logpdf(sig ** 2, scale=5.0)) if variant.get("weakdist") else 0.0
+    if variant.get("disc"):
+        lpr += math.log(DISC_P[DISC_OUT.index(zc)])
+    out = {"mu": mu, "sigma": sig, "pred": float(xnew @ b + s), "_model_log_lik": ll, "_model_log_prior": lpr, "_model_log_prob": ll + lpr + extra}
+    if variant.get("pit"):
+        out["shift_pit"] = float(sps.norm.cdf(s, 0.0, 2.0))
+    return out
 
 
 def dict_model(seed):
@@ -185,7 +200,8 @@ def gen():
               for i, grp in enumerate(groups)]
         return {"liesel": draw(st.sampled_from([True, True, False])), "kernels": ks, "iters": draw(st.integers(12, 40)), "seed": draw(st.integers(0, 10**6)),
                 "epoch": draw(st.sampled_from([1, 3, 4])),
-                "variant": {"weakdist": draw(st.booleans()), "auto_off": draw(st.booleans()), "alias": draw(st.integers(0, 2)) == 0}}
+                "variant": {"weakdist": draw(st.booleans()), "auto_off": draw(st.booleans()), "alias": draw(st.integers(0, 2)) == 0,
+                            "pit": draw(st.booleans()), "disc": draw(st.booleans())}}
 
     return g()
 
@@ -227,10 +243,24 @@ def oracle(c):
         st0 = {"beta": jnp.zeros(2, dtype=jnp.float32), "sigma_transformed": jnp.float32(0.0), "shift": jnp.float32(0.0)}
     watch = params + derived
     kernels = []
-    for k in c["kernels"]:
-        w = Wrap(make_inner(k, iface), watch, k["id"])
+    klist = list(c["kernels"])
+    disc = bool(c["liesel"] and (c.get("variant") or {}).get("disc"))
+    if disc:
+        klist.append({"keys": ["z"], "kind": "disc_gibbs", "step": 1.0, "id": "dd_disc"})
+    for k in klist:
+        if k["kind"] == "disc_gibbs":
+            from liesel.model.goose import finite_discrete_gibbs_kernel
+
+            inner = finite_discrete_gibbs_kernel("z", model)
+        else:
+            inner = make_inner(k, iface)
+        w = Wrap(inner, watch, k["id"])
         w.set_model(iface)
         kernels.append(w)
+    if disc and not (c.get("variant") or {}).get("auto_off"):
+        # start values assigned AFTER the kernels were created (the user's model auto-updates), then the state is taken
+        model.vars["shift"].value = np.float32(0.25)
+        st0 = model.state
     C = 3
     states = jax.tree_util.tree_map(lambda x: jnp.stack([jnp.asarray(x)] * C), st0)
     T = c["iters"]
@@ -241,7 +271,7 @@ def oracle(c):
     res = eng.get_results()
     tis = res.transition_infos.combine_all().unwrap()
     pos = res.get_samples()
-    ids = [k["id"] for k in c["kernels"]]
+    ids = [k["id"] for k in klist]
     require(list(res.get_kernels_by_pos_key().keys()) is not None, "harness", det)
     mixed = False
     for ch in range(C):
@@ -252,12 +282,12 @@ def oracle(c):
                 ti = tis[kid]
                 pre = {k: np.asarray(v)[ch, t] for k, v in ti.pre.items()}
                 post = {k: np.asarray(v)[ch, t] for k, v in ti.post.items()}
-                own = set(c["kernels"][j]["keys"])
+                own = set(klist[j]["keys"])
                 # threading in the configured order
                 src = prev_post if prev_post is not None else {k: np.asarray(pos[k])[ch, t] for k in watch}      # stored sample t = state before iteration t+1
                 for k in params:
                     require(np.array_equal(pre[k], src[k]), "kernel-does-not-start-from-predecessors-state",
-                            lambda: f"chain {ch} iteration {t} kernel #{j} ({kid}, {c['kernels'][j]['kind']}): incoming {k}={pre[k].tolist()} but predecessor left {src[k].tolist()}; {det()}")
+                            lambda: f"chain {ch} iteration {t} kernel #{j} ({kid}, {klist[j]['kind']}): incoming {k}={pre[k].tolist()} but predecessor left {src[k].tolist()}; {det()}")
                 # block isolation
                 for k in params:
                     if k not in own:
